@@ -211,6 +211,8 @@ class FnTranslator:
                     return f'{base}.{ {"is_realtime": "isRealtime", "is_meta": "isMeta"}[e.attr] }', BOOL
                 if t == MSG and e.attr == 'data':
                     return f'{base}.data', LINT
+                if t == MSG and e.attr == 'tempo':
+                    return f'{base}.tempo', INT
             if isinstance(e.value, ast.Attribute):
                 base, t = self.expr(e.value)
                 if isinstance(t, tuple) and t[0] == 'Obj':
@@ -361,9 +363,9 @@ class FnTranslator:
         if isinstance(e, ast.Compare) and len(e.ops) == 1 and isinstance(e.left, ast.Attribute) and e.left.attr == 'type' \
                 and isinstance(e.left.value, ast.Name) and self.env.get(e.left.value.id, (None, None))[1] == MSG:
             r = e.comparators[0]
-            if isinstance(r, ast.Constant) and r.value in ('end_of_track', 'sysex') and isinstance(e.ops[0], (ast.Eq, ast.NotEq)):
+            if isinstance(r, ast.Constant) and r.value in ('end_of_track', 'sysex', 'set_tempo') and isinstance(e.ops[0], (ast.Eq, ast.NotEq)):
                 b = self.env[e.left.value.id][0]
-                fld = 'eot' if r.value == 'end_of_track' else 'isSysex'
+                fld = {'end_of_track': 'eot', 'sysex': 'isSysex', 'set_tempo': 'isSetTempo'}[r.value]
                 return (f'{b}.{fld}' if isinstance(e.ops[0], ast.Eq) else f'(!{b}.{fld})'), BOOL
             raise Untranslatable('comparison of a message type')
         if isinstance(e, ast.Compare):
@@ -576,6 +578,11 @@ class FnTranslator:
                 a, t = self.expr(e.args[0])
                 if t == ('Text',):
                     return f'(← pyint {a})', INT          # int(text): what it accepts and returns is a parameter of the unit
+            if n in getattr(self.unit, 'fn_params', {}) and n != 'pyint' and not e.keywords:
+                # a function of the code outside the fragment (float arithmetic): a parameter of the unit
+                args = [self.expr(a) for a in e.args]
+                if all(t == INT for _, t in args):
+                    return '(%s %s)' % (n, ' '.join(a for a, _ in args)), INT
             if n == 'abs' and len(e.args) == 1:
                 a, t = self.expr(e.args[0])
                 return f'(Int.ofNat (Int.natAbs {a}))', INT
@@ -1939,7 +1946,7 @@ class Translator:
     GROUPS = {'mido/messages/encode.py': 'Codec', 'mido/messages/decode.py': 'Codec', 'mido/messages/checks.py': 'Codec',
               'mido/tokenizer.py': 'Tok', 'mido/midifiles/meta.py': 'MetaNum', 'mido/midifiles/tracks.py': 'Tracks',
               'mido/midifiles/midifiles.py': 'FileIO', 'mido/parser.py': 'Parser', 'mido/ports.py': 'Ports', 'mido/syx.py': 'Syx', 'mido/sockets.py': 'Sockets'}
-    DEPS = {'Codec': [], 'Msg': ['Codec'], 'Tok': [], 'Parser': ['Tok'], 'Ports': [], 'Charset': [], 'Syx': ['Tok', 'Parser'], 'Sockets': [], 'MetaNum': [], 'Tracks': [], 'FileIO': ['MetaNum', 'Tracks']}
+    DEPS = {'Codec': [], 'Msg': ['Codec'], 'Tok': [], 'Parser': ['Tok'], 'Ports': [], 'Charset': [], 'Syx': ['Tok', 'Parser'], 'Sockets': [], 'Timing': [], 'MetaNum': [], 'Tracks': [], 'FileIO': ['MetaNum', 'Tracks']}
 
     def run_groups(self):
         """one generated file per group of source files, so that a function that cannot be translated (or an edit that
@@ -2169,6 +2176,11 @@ def units():
     U.append(u)
     u = Unit(MF, 'save', [('self', mfrec()), ('file', FILE)], NONE, lean_name='MidiFile.save')
     u.pycls, u.keep_self = 'MidiFile', True
+    U.append(u)
+    u = Unit(MF, '__iter__', [('self', Rec({'merged_track': LIST(MSG), 'ticks_per_beat': INT}))], LIST(MSG), lean_name='MidiFile.iter')
+    u.pycls, u.keep_self, u.group = 'MidiFile', True, 'Timing'
+    u.fn_params = {'tick2second': 'Int → Int → Int → Int'}
+    u.hoist = True
     U.append(u)
 
     def meta(cls, attrs, dec_extra=None, checks=True):
